@@ -141,3 +141,118 @@ def run(chk):
             done.add(o.construct)
             fresh.append(o)
         chk.obs[before:] = fresh
+
+
+# ---------------------------------------------------------------------------
+# public wiring: eliot/__init__.py aliases, class-level method aliases, deprecated Message API
+
+INIT_ALIASES = {
+    # public name -> unparsed right-hand side it must be bound to
+    "add_destinations": "Logger._destinations.add",
+    "removeDestination": "Logger._destinations.remove",
+    "remove_destination": "removeDestination|Logger._destinations.remove",
+    "addGlobalFields": "Logger._destinations.addGlobalFields",
+    "add_global_fields": "addGlobalFields|Logger._destinations.addGlobalFields",
+    "addDestination": "add_destination",
+    "start_task": "startTask",
+    "startAction": "start_action",
+    "writeTraceback": "write_traceback",
+    "write_failure": "writeFailure",
+}
+
+
+def init_wiring(chk, prefix):
+    """The module-level public API of eliot/__init__.py is bound to the one process-wide
+    Destinations object that Logger.write sends to, and the PEP 8 / legacy names are plain
+    aliases of the same functions."""
+    ctx = chk.ctx
+    init = ctx.p.mod("__init__")
+    problems = []
+    n = 0
+    for name, want in sorted(INIT_ALIASES.items()):
+        vals = [v for v in init.assigns.get(name, []) if isinstance(v, ast.AST)]
+        n += 1
+        if len(vals) != 1 or unparse(vals[0]) not in want.split("|"):
+            problems.append("%s = %s (expected %s)" % (name, [unparse(v) for v in vals], want))
+    ad = init.funcs.get("add_destination")
+    okad = ad is not None and any(isinstance(x, ast.Call) and unparse(x.func) == "Logger._destinations.add" and len(x.args) == 1 and isinstance(x.args[0], ast.Name) and x.args[0].id == ad.params[0]
+                                  for x in ast.walk(ad.node))
+    if not okad:
+        problems.append("add_destination(destination) does not register it with Logger._destinations.add(destination)")
+    lw = ctx.func("_output", "Logger.write")
+    oksend = any(isinstance(x, ast.Call) and unparse(x.func) == "self._destinations.send" for x in ast.walk(lw.node))
+    lcls = ctx.cls("_output", "Logger")
+    okcls = "_destinations" in lcls.attrs and unparse(lcls.attrs["_destinations"]) == "Destinations()"
+    if not (oksend and okcls):
+        problems.append("Logger.write does not send to the class-level Logger._destinations = Destinations()")
+    tf = ctx.func("_output", "to_file")
+    if not any(isinstance(x, ast.Call) and unparse(x.func) == "Logger._destinations.add" for x in ast.walk(tf.node)):
+        problems.append("to_file does not register with Logger._destinations")
+    chk.req(not problems, "%s.wiring" % prefix, "eliot.__init__:public-names-bound-to-the-one-registry", "%s:1" % init.relpath,
+            good="%d public names are plain aliases; registration goes to Logger._destinations, which Logger.write sends to" % n, fail="; ".join(problems), sites=n)
+
+
+def class_aliases(chk, prefix, modules=("_action", "_output", "_validation", "testing", "_message")):
+    """Class-level legacy / PEP 8 method aliases stay plain aliases of the same function object."""
+    ctx = chk.ctx
+    n = 0
+    bad = []
+    EXPECT = {("_action", "Action"): {"serializeTaskId": "serialize_task_id", "continueTask": "continue_task", "add_success_fields": "addSuccessFields"},
+              ("_action", "TaskLevel"): {"from_string": "fromString", "to_string": "toString"},
+              ("_output", "MemoryLogger"): {"flush_tracebacks": "flushTracebacks"},
+              ("_validation", "Field"): {"for_value": "forValue", "for_types": "forTypes"},
+              ("_validation", "ActionType"): {"asTask": "as_task"},
+              ("testing", "LoggedAction"): {"from_messages": "fromMessages", "ofType": "of_type"},
+              ("testing", "LoggedMessage"): {"ofType": "of_type"}}
+    for (mod, cname), table in sorted(EXPECT.items()):
+        if mod not in modules:
+            continue
+        cls = ctx.cls(mod, cname)
+        for alias, target in sorted(table.items()):
+            n += 1
+            v = cls.attrs.get(alias)
+            if alias in {m.name for m in cls.methods.values() if m.node.name == alias}:
+                bad.append("%s.%s is now a separate function, not an alias of %s" % (cname, alias, target))
+            elif not (isinstance(v, ast.Name) and v.id == target):
+                bad.append("%s.%s = %s (expected the plain alias %s)" % (cname, alias, v is not None and unparse(v), target))
+    chk.req(not bad, "%s.wiring" % prefix, "class-level-aliases:same-function-object", "eliot/", good="%d legacy/PEP 8 method names are plain aliases" % n, fail="; ".join(bad), sites=n)
+
+
+def deprecated_message_api(chk, prefix):
+    """Message.new / Message.log / MessageType.__call__ build the same Message the new API logs:
+    given fields, the type's own serializer, and (for typed messages) the message_type field."""
+    ctx = chk.ctx
+    problems = []
+    new = ctx.func("_message", "Message.new")
+    r = [n for n in iter_own_nodes(new.node) if isinstance(n, ast.Return)]
+    if not (len(r) == 1 and isinstance(r[0].value, ast.Call) and [unparse(a) for a in r[0].value.args] == [new.node.args.kwarg.arg, new.params[1]]):
+        problems.append("Message.new does not return Message(fields, _serializer)")
+    log = ctx.func("_message", "Message.log")
+    t = " ".join(unparse(s) for s in log.node.body)
+    if "%s(%s).write()" % (log.params[0], log.node.args.kwarg.arg) not in t:
+        problems.append("Message.log does not write Message(fields)")
+    mc = ctx.func("_validation", "MessageType.__call__")
+    t = " ".join(unparse(s) for s in mc.node.body)
+    if "fields[MESSAGE_TYPE_FIELD] = self.message_type" not in t or "return Message(fields, self._serializer)" not in t:
+        problems.append("MessageType.__call__ does not build Message(fields + message_type, self._serializer)")
+    ml = ctx.func("_validation", "MessageType.log")
+    t = " ".join(unparse(s) for s in ml.node.body)
+    if "log_message(self.message_type, **fields)" not in t:
+        problems.append("MessageType.log does not log under the type's own message_type")
+    chk.req(not problems, "%s.wiring" % prefix, "deprecated-message-API:same-message-as-the-new-API", chk.where(new),
+            good="Message.new/log and MessageType.__call__/log pass fields, type and serializer through", fail="; ".join(problems))
+
+
+RULES["C12"] = RULES.get("C12", []) + [init_wiring]
+RULES["C08"] = RULES.get("C08", []) + [init_wiring]
+RULES["C01"] = RULES.get("C01", []) + [init_wiring, class_aliases, deprecated_message_api]
+RULES["C13"] = RULES.get("C13", []) + [deprecated_message_api, class_aliases]
+RULES["C14"] = RULES.get("C14", []) + [deprecated_message_api, class_aliases]
+RULES["C02"] = RULES.get("C02", []) + [class_aliases]
+RULES["C06"] = RULES.get("C06", []) + [class_aliases]
+RULES["C03"] = RULES.get("C03", []) + [class_aliases]
+RULES["C16"] = RULES.get("C16", []) + [class_aliases]
+RULES["C17"] = RULES.get("C17", []) + [class_aliases]
+RULES["C10"] = RULES.get("C10", []) + [init_wiring]
+RULES["C11"] = RULES.get("C11", []) + [init_wiring]
+RULES["C07"] = RULES.get("C07", []) + [init_wiring, deprecated_message_api]
